@@ -200,6 +200,7 @@ def run(ctx):
     expr_tokens_carry_expressions(ctx)
     looked_up_types_may_lack_cpptype(ctx)
     nullable_array_bounds(ctx)
+    scopes_do_not_contain_themselves(ctx)
     containment_recursion(ctx)
     construction_stacks(ctx)
     lexer_restore_order(ctx)
@@ -1370,3 +1371,51 @@ def nullable_array_bounds(ctx):
     ctx.floor("R15.19", "calls of get_setter", n_calls, 1)
     for f, x, inst in far:
         ctx.ob("R15.19", inst + "|guarded-at-synthesis", True, f.loc(x), "setter branch: covered by the two obligations on is_assignable()/get_setter()")
+
+
+def scopes_do_not_contain_themselves(ctx):
+    """R15.20: CPPScope::write()/CPPStructType::output() walk the declarations of a scope and, for a class, the
+    declarations of its scope in turn.  A class listed in its own scope (or in a scope nested in it) makes that walk
+    endless.  Every other add_declaration() of the parser hands over an object made in the same action; the one that
+    hands over the value of `type_decl` - which for a type name is an EXISTING type found by lookup - must first rule out
+    that the type's scope is the current scope or one of its ancestors.  (F-C15p: `class Type { Type ; };` hung.)"""
+    db = ctx.db
+    ctx.rule("R15.20", "in the generated parser, add_declaration(<a declaration taken from the value stack>) is reached only when a flag is false that is set inside a walk up get_parent_scope() comparing each scope with the declared class's get_scope()")
+    fs = [f for f in db.functions if f.file.endswith("cppBison.cxx") and f.name.endswith("yyparse")]
+    if not fs:
+        ctx.broken("R15.20: generated parser not found")
+    f = fs[0]
+    n = n_all = 0
+    for c in f.walk():
+        if c.get("k") != "call" or callee_short(c) != "add_declaration" or not c.get("a"):
+            continue
+        n_all += 1
+        a = strip_casts(peel(c["a"][0]))
+        if not (a is not None and a.get("k") == "mem" and (a.get("n") or "").endswith("::decl") and "yyvsp" in show(a)):
+            continue
+        n += 1
+        ok = False
+        why = "no guarding flag found"
+        # candidate flags: local bools set true inside a parent-scope walk
+        for lp in f.walk():
+            if lp.get("k") not in ("for", "while", "do"):
+                continue
+            sub = list(walk(lp))
+            if not any(y.get("k") == "call" and callee_short(y) == "get_parent_scope" for y in sub):
+                continue
+            cmp_ok = any(G.cmp_atom(y) and G.cmp_atom(y)[0] == "==" and any((strip_casts(peel(z)) or {}).get("k") == "call" and callee_short(strip_casts(peel(z))) == "get_scope" for z in G.cmp_atom(y)[1:] if z is not None)
+                         for y in sub if y.get("k") == "bin")
+            if not cmp_ok:
+                continue
+            for y in sub:
+                t = assigned_target(y)
+                r = local_ref(t[0]) if t else None
+                if r is not None and const_int(t[1]) == 1:
+                    d = r["d"]
+                    edges = G.edges_where(f, lambda atom, truth, d=d: (not truth) and (local_ref(atom) or {}).get("d") == d)
+                    if edges and G.gated(f, c, edges):
+                        ok = True
+                        why = "behind `!%s`, which is set in a walk up the enclosing scopes" % r.get("n")
+        ctx.ob("R15.20", "yyparse|add_declaration(%s)|not-an-enclosing-class" % _norm(show(a)), ok, "src/cppparser/cppBison.yxx (generated line %s)" % f.loc(c).split(":")[-1], why)
+    ctx.floor("R15.20", "add_declaration calls in the generated parser", n_all, 25)
+    ctx.floor("R15.20", "add_declaration calls handing over a value-stack declaration", n, 1)
